@@ -93,6 +93,24 @@ ConjEquiv(t, ts) ==
      IN  \A A \in SUBSET At : EvalA(t, A) = (\A i \in DOMAIN ts : EvalA(ts[i], A))
 
 ---------------------------------------------------------------------------
+(* NAMED DEVIATION dep-simplify.  flamapy.core.models.ast.simplify_formula *)
+(* (a dependency, not part of this repository) rewrites  P <=> Q  and      *)
+(* P xor Q  wrongly: a local variable is overwritten before its second     *)
+(* use, so  P <=> Q  becomes  (P => Q) /\ (Q => (P => Q))  and  P xor Q    *)
+(* becomes  ((not (P /\ not Q)) /\ Q) \/ Q.  DepSimplify is the meaning of  *)
+(* what that function returns; a failing step is attributed to this known  *)
+(* finding only if the logged result is exactly what DepSimplify explains. *)
+RECURSIVE DepSimplify(_)
+DepSimplify(t) ==
+  CASE t.op = "XOR"         -> Bin("OR", DepSimplify(t.r), t.r)
+    [] t.op = "EQUIVALENCE" -> Bin("IMPLIES", DepSimplify(t.l), DepSimplify(t.r))
+    [] t.op \in {"AND", "OR", "IMPLIES", "REQUIRES", "EXCLUDES"}
+                            -> Bin(t.op, DepSimplify(t.l), DepSimplify(t.r))
+    [] t.op = "NOT"         -> Un("NOT", DepSimplify(t.l))
+    [] OTHER                -> t
+HasDepOps(t) == OpsOf(t) \cap {"XOR", "EQUIVALENCE"} # {}
+
+---------------------------------------------------------------------------
 (* The documented simple forms (C18) *)
 
 IsVarT(t)    == t.op = "VAR"
